@@ -609,7 +609,7 @@ V('M-log-continue', ['C12'], 'A5.log', BE, "                    if LOG:\n       
   "                    if LOG:\n                        LOG('not encoding DEFAULT component %r' % (namedType,))\n                        continue\n\n                if omitEmptyOptionals:\n                    options.update(ifNotEmpty=namedType.isOptional)\n\n                componentSpec")
 V('M-sortkey-static', ['C17', 'C03'], 'A9.dyn', DE, "                # TODO: support nested CHOICE ordering\n                return asn1Spec[names[0]].tagSet[-1:]", "                return encoder.SetEncoder._componentSortKey(componentAndType)")
 V('M-vmap-ancestry', ['C14', 'C10'], 'C14.vmap', CO, "            constraintSet._valueMap.update(self._valueMap)\n", "")
-V('M-clone-enumerate', ['C04', 'C19'], 'C04.clone', UN, "    def _cloneComponentValues(self, myClone, cloneValueFlag):\n        for idx, componentValue in self._componentValues.items():", "    def _cloneComponentValues(self, myClone, cloneValueFlag):\n        for idx, componentValue in enumerate(self._componentValues.values()):")
+V('M-clone-enumerate', ['C04', 'C19'], 'C04.clone', UN, "        myClone.clear()\n\n        for idx, componentValue in self._componentValues.items():", "        myClone.clear()\n\n        for idx, componentValue in enumerate(self._componentValues.values()):")
 V('M-isdeterministic', ['C09', 'C10', 'C01', 'C02'], 'A6.spec', BD, "            isSetType = asn1Object.typeId == univ.Set.typeId\n            isDeterministic = not isSetType and not namedTypes.hasOptionalOrDefault", "            isSetType = asn1Object.typeId == univ.Set.typeId\n            isDeterministic = not namedTypes.hasOptionalOrDefault")
 V('M-required-weaker', ['C10'], ('C10.req', 'A6.spec'), BD, "            if namedTypes:\n                if not namedTypes.requiredComponents.issubset(seenIndices):\n                    raise error.PyAsn1Error(\n                        'ASN.1 object %s has uninitialized '\n                        'components' % asn1Object.__class__.__name__)\n\n                if namedTypes.hasOpenTypes:",
   "            if namedTypes:\n                if (idx < len(namedTypes) and\n                        not namedTypes.requiredComponents.issubset(seenIndices)):\n                    raise error.PyAsn1Error(\n                        'ASN.1 object %s has uninitialized '\n                        'components' % asn1Object.__class__.__name__)\n\n                if namedTypes.hasOpenTypes:")
@@ -873,6 +873,16 @@ V('M-items-skip-absent', ['C17'], 'C17.items', UN,
   "            if self._componentTypeLen:\n                yield self.componentType[idx].name, self[idx]",
   "            if self._componentTypeLen:\n                component = self.getComponentByPosition(idx, instantiate=False)\n                if component is not noValue:\n                    yield self.componentType[idx].name, component")
 V('M-offset-wrapped', ['C20'], 'A11.tz', US, "            self.__offset = datetime.timedelta(minutes=offset)", "            offset = (offset + 720) % 1440 - 720\n            self.__offset = datetime.timedelta(minutes=offset)")
+
+
+V('M-bits-empty-any-form', ['C09'], 'A6.zeroseg', BD,
+  "        if tagSet[0].tagFormat == tag.tagFormatSimple:  # XXX what tag to check?\n\n            # (the constructed form may well consist of no segments at all)\n            if not length:\n                raise error.PyAsn1Error('Empty BIT STRING substrate')\n",
+  "        if not length:\n            raise error.PyAsn1Error('Empty BIT STRING substrate')\n\n        if tagSet[0].tagFormat == tag.tagFormatSimple:  # XXX what tag to check?\n")
+V('M-copy-not-cleared', ['C04', 'C19'], 'C04.copyvalue', UN, "        # the copy of a value is a value, also when there is nothing in it\n        myClone.clear()\n\n", "")
+V('M-native-list-not-cleared', ['C17'], 'C17.clear', ND, "        # an empty list is a value all the same\n        asn1Value.clear()\n\n", "")
+
+
+V('M-union-add-widens', ['C14'], 'C14.narrow', CO, "    def __add__(self, value):\n        return ConstraintsIntersection(self, value)\n", "    def __add__(self, value):\n        return self._derive(self._values + (value,))\n")
 
 
 if __name__ == '__main__':
